@@ -715,6 +715,10 @@ def ob_beam_section_swap(timo=False):
     return Verdict(DISCHARGED, backend="native run vs fresh simulation")
 
 
+# (class, memoised method, argument) whose attribute reads are accepted, with the reason
+_CACHE_ARGUMENT_ALLOWED = set()
+
+
 def ob_cache_foreign():
     """a @cache_computed_values method (and what it calls on self) must not read the state of ANOTHER object through self -- `self.<object>.<attribute>` with
     <object> a public attribute or property (model, material, mesh, ...): the memo key cannot see such state and a change of it only raises the update flag of
@@ -791,6 +795,21 @@ def ob_cache_foreign():
                         raise Refuted(f"{cls}.{m} is reached from the @cache_computed_values methods {cached} and reads `self.{obj}.{att}` (line {node.lineno}): state of another object "
                                       f"that the memo key does not contain; changing it leaves the memoised value stale", cex=dict(cls=cls, method=m, read=f"self.{obj}.{att}", line=node.lineno),
                                       signature=f"I_cache.foreign:{cls}:{obj}.{att}", replay=rep)
+        # a memoised method handed ANOTHER OBJECT as an argument: the key holds the object, not its state -- reading an attribute of the argument (or calling it) makes the
+        # memo depend on state the key cannot see
+        for m in cached:
+            for which, fn, decs in by[m]:
+                if which == "setter" or not any("cache_computed_values" in d for d in decs):
+                    continue
+                params = [a.arg for a in fn.node.args.args[1:]] + [a.arg for a in fn.node.args.kwonlyargs]
+                for node in ast.walk(fn.node):
+                    n += 1
+                    if isinstance(node, ast.Attribute) and isinstance(node.value, ast.Name) and node.value.id in params and isinstance(node.ctx, ast.Load):
+                        if (cls, m, node.value.id) in _CACHE_ARGUMENT_ALLOWED:
+                            continue
+                        raise Refuted(f"{cls}.{m} is memoised by @cache_computed_values and reads `{node.value.id}.{node.attr}` (line {node.lineno}) of its ARGUMENT `{node.value.id}`: the memo key holds "
+                                      f"that object, not its state; after the object changes the memoised value is stale", cex=dict(cls=cls, method=m, read=f"{node.value.id}.{node.attr}", line=node.lineno),
+                                      signature=f"I_cache.foreign:{cls}:{m}:argument.{node.value.id}", replay=dict(confirmed=False, note="no native witness is generated for this read; the obligation that passed on the unchanged tree now fails"))
         report.append(f"{cls}: {len(cached)} cached, {len(seen)} reachable methods")
     if n == 0:
         raise Unsupported("no cached method found (vacuous)")
